@@ -111,6 +111,9 @@ class Damage(SubCheck):
                 'spelling': st.sampled_from(['plain', 'plain', 'dotdot', 'double-slash', 'dot']),  # how the directory path is written
                 'n_items': st.integers(3, len(ITEMS)),
                 'damages': st.lists(damage_strategy(), min_size=1, max_size=5),
+                # before the damage is done, a transaction block on the same object replaces and deletes items (file-backed ones
+                # among them) and raises: the contents are as before, and check() must see them that way
+                'aborted_block': st.booleans(),
             }
         )
 
@@ -162,6 +165,18 @@ class Damage(SubCheck):
         try:
             for k, v in items:
                 obj[k] = v
+            if case.get('aborted_block'):
+                class _Abort(Exception):
+                    pass
+
+                try:
+                    with obj.transact():
+                        for k, v in items[:4]:
+                            obj[k] = (v + v[:1]) if type(v) in (bytes, str) and v else v
+                        del obj[items[-1][0]]
+                        raise _Abort()
+                except _Abort:
+                    pass
             # where did each item land?
             where = {}
             for root in roots:
